@@ -4,7 +4,7 @@ from .. import common as C
 from .. import cases as K
 from .. import layer_d as D
 from ..layer_a import proj_kinds
-from ..runner import canon
+from ..runner import canon, load_corpus
 
 MODULE = "Props.C16"
 THEOREMS = ["C16_unmock_reaches_real_function", "C16_cannot_unmock_names_method", "C16_real_function_arguments",
@@ -80,7 +80,7 @@ def run(tier, seed):
         obligations += C.inventory_obligation(with_dtrait=True)
     except C.CheckFailure as pf:
         pending_failure = pf          # look for a concrete failing input first
-    cases = [gen_case(rng) for _ in range(200 if tier == "quick" else 1200)]
+    cases = load_corpus("C16") + [gen_case(rng) for _ in range(200 if tier == "quick" else 1200)]
     feat = None
     try:
         impl, model = D.both(CRATE, cases)
